@@ -45,6 +45,8 @@ def play(scripts, stop_at, horizon, bind_mode, min_delay, max_increases, interva
             try:
                 await orig_connect()
                 cyc['state_after_bind'] = int(esme.session_state)
+                cyc['bound_at'] = loop.time()
+                cyc['conn'] = len(smsc.conns) - 1
             except asyncio.CancelledError:
                 raise
             except BaseException as e:  # noqa: BLE001
@@ -103,8 +105,9 @@ def play(scripts, stop_at, horizon, bind_mode, min_delay, max_increases, interva
                     elif sc[0] == 'garbage_at_bind':
                         conn.send(b'\x00\x00\x00\x10\xde\xad\xbe\xef' + bytes(8))
                     elif sc[0] == 'ok':
-                        conn.send(vsess.bind_resp_for(p))
-                        after = sc[2] if len(sc) > 2 else 3.3
+                        bd = sc[3] if len(sc) > 3 else 0.0       # the SMSC may take its time to answer the bind
+                        conn.send(vsess.bind_resp_for(p), delay=bd)
+                        after = (sc[2] if len(sc) > 2 else 3.3) + bd
                         if sc[1] == 'eof':
                             conn.eof(delay=after)
                         elif sc[1] == 'reset':
@@ -246,6 +249,12 @@ def oracle(obs, scripts, bind_mode, min_delay, max_increases, interval, sock_to)
     for (o, c, cmds, sc) in obs['conns']:
         if c is None:
             return f'connection opened at t={o} is still open after start() returned (stop at t={obs["stop_at"]}, script {sc})'
+    for cyc in obs['cycles']:
+        if cyc.get('bound_at') is not None and cyc['bound_at'] >= obs['stop_at'] - 1e-9 and cyc.get('conn') is not None and cyc['conn'] < len(obs['conns']):
+            o, c, cmds, sc = obs['conns'][cyc['conn']]
+            if 6 not in cmds:
+                return (f'the bind on the connection opened at t={o} completed at t={cyc["bound_at"]:.3f}, after stop() at t={obs["stop_at"]}: the session '
+                        f'was bound and then closed without unbind (PDUs written: {cmds})')
     if obs['bound_at_stop'] and obs['conns']:
         o, c, cmds, sc = obs['conns'][-1]
         if 6 not in cmds:
@@ -268,7 +277,7 @@ def gen_scenario(rng):
         # a long streak of failed cycles: the delay must keep doubling up to min * 2^max_increases and stay there
         scripts = [rng.choice([('refuse',), ('bind_error', 13), ('eof_at_bind',), ('os_error',), ('wrong_resp',)]) for _ in range(max_inc + rng.choice([2, 3, 4]))]
         min_delay = rng.choice([1, 20, 250])
-    scripts.append(('ok', 'stay'))
+    scripts.append(('ok', 'stay', 3.3, rng.choice([0.0, 0.0, 0.4, 1.5, 5.0])))
     return scripts, bind_mode, min_delay, max_inc
 
 
